@@ -25,6 +25,15 @@ use super::{
 const PARSE_AT_LEAST: usize = 3; // N in Corchuelo et al.
 const TRY_PARSE_AT_MOST: usize = 250;
 
+#[cfg(grmtools_verif)]
+pub(crate) const fn verif_parse_at_least() -> usize {
+    PARSE_AT_LEAST
+}
+#[cfg(grmtools_verif)]
+pub(crate) const fn verif_try_parse_at_most() -> usize {
+    TRY_PARSE_AT_MOST
+}
+
 #[derive(Clone, Copy, Debug, Eq, Hash, PartialEq)]
 enum Repair<StorageT> {
     /// Insert a `Symbol::Token` with idx `token_idx`.
@@ -187,7 +196,14 @@ where
             |explore_all, n, nbrs| {
                 // Calculate n's neighbours.
 
+                #[cfg(grmtools_verif)]
+                if crate::verif::step_budget_exhausted() {
+                    crate::verif::note_timeout();
+                    return false;
+                }
                 if Instant::now() >= finish_by {
+                    #[cfg(grmtools_verif)]
+                    crate::verif::note_timeout();
                     return false;
                 }
 
@@ -391,7 +407,14 @@ where
             finish_by: Instant,
             rm: &Cactus<RepairMerge<StorageT>>,
         ) -> Option<Vec<Vec<Repair<StorageT>>>> {
+            #[cfg(grmtools_verif)]
+            if crate::verif::step_budget_exhausted() {
+                crate::verif::note_timeout();
+                return None;
+            }
             if Instant::now() >= finish_by {
+                #[cfg(grmtools_verif)]
+                crate::verif::note_timeout();
                 return None;
             }
             let mut out = Vec::new();
@@ -584,7 +607,14 @@ where
     let mut cnds = Vec::new();
     let mut furthest = 0;
     for rpr_seqs in in_cnds {
+        #[cfg(grmtools_verif)]
+        if crate::verif::step_budget_exhausted() {
+            crate::verif::note_timeout();
+            return vec![];
+        }
         if Instant::now() >= finish_by {
+            #[cfg(grmtools_verif)]
+            crate::verif::note_timeout();
             return vec![];
         }
         let mut pstack = in_pstack.to_owned();
